@@ -12,15 +12,24 @@ failure (build error, engine crash, nondeterminism) - never a verdict.
 """
 import json
 import os
+import re
 import subprocess
 import sys
 import time
 
 VERIF = os.path.dirname(os.path.abspath(__file__))
 MC = os.path.join(VERIF, "mc")
-EVID = os.path.join(VERIF, "evidence")
+# Detection self-tests (mutants/selftest.sh) run the same checks against a mutated COPY of /repo and must not
+# touch the committed evidence: VERIF_REPO_OVERRIDE redirects the path dependency, VERIF_OUT_DIR the outputs.
+REPO_OVERRIDE = os.environ.get("VERIF_REPO_OVERRIDE")
+MUT = ""
+if REPO_OVERRIDE:
+    import hashlib
+    MUT = "-mut-" + hashlib.md5(REPO_OVERRIDE.encode()).hexdigest()[:8]  # one build directory per overriding copy
+OUT = os.environ.get("VERIF_OUT_DIR") or VERIF
+EVID = os.path.join(OUT, "evidence")
 PARTS = os.path.join(EVID, ".parts")
-REPLAYS = os.path.join(VERIF, "replays")
+REPLAYS = os.path.join(OUT, "replays")
 KNOWN = os.path.join(VERIF, "known_findings.jsonl")
 SCHEMA = "/root/.vp/EVIDENCE.schema.json"
 
@@ -46,6 +55,8 @@ CONFIGS = {
         args=["--profile", "oc", "--no-default-features", "--features", "std", "--target-dir", "target-realclock"],
         bin="target-realclock/oc/coapmc",
     ),
+    # interpreter run (Miri) of the C04 boundary slice: uninitialised-byte clause; executed through `cargo miri run`
+    "miri": dict(miri=True, args=["--target-dir", "target-miri"], bin=None),
     "asan": dict(
         toolchain="+nightly",
         args=[
@@ -97,7 +108,7 @@ PROPS = {
         "{L-1,L,L+1,0,3,4,MAX-1,MAX,MAX+1,usize::MAX}, to_bytes, to_bytes_unlimited; same corpus under AddressSanitizer. "
         "distinct+non-trivial = distinct (relation to MAX_SIZE x token x option length bands x payload x empty-code x distance "
         "to MAX) buckets.",
-        ["oc", "rel", "asan"], ["oc", "rel", "asan", "udp"],
+        ["oc", "rel", "asan"], ["oc", "rel", "asan", "udp", "miri"],
     ),
     "C05": P(
         "exploration",
@@ -250,10 +261,19 @@ def log(msg):
 
 def build(cfg):
     c = CONFIGS[cfg]
+    if c.get("miri"):
+        return None  # built and run in one step by `cargo miri run`
     cmd = ["cargo"]
     if c.get("toolchain"):
         cmd.append(c["toolchain"])
     cmd += ["build", "-p", "coapmc", "--offline"] + c["args"]
+    if REPO_OVERRIDE:
+        cmd += ["--config", f'paths=["{REPO_OVERRIDE}"]']
+        if "--target-dir" in cmd:
+            i = cmd.index("--target-dir")
+            cmd[i + 1] = cmd[i + 1] + MUT
+        else:
+            cmd += ["--target-dir", "target" + MUT]
     env = dict(ENV)
     env.update(c.get("env", {}))
     t0 = time.time()
@@ -263,7 +283,11 @@ def build(cfg):
         log(f"MACHINERY: build of configuration {cfg} failed")
         sys.exit(2)
     log(f"[build {cfg}] ok in {time.time() - t0:.1f}s")
-    return os.path.join(MC, c["bin"])
+    binp = c["bin"]
+    if REPO_OVERRIDE:
+        first, rest = binp.split("/", 1)
+        binp = first + MUT + "/" + rest
+    return os.path.join(MC, binp)
 
 
 def known_findings():
@@ -283,9 +307,15 @@ def run_config(pid, cfg, tier, seed, extra=None):
     if os.path.exists(part):
         os.remove(part)
     cmd = [exe, pid, "--tier", tier, "--seed", str(seed), "--config", cfg, "--out", part]
+    env = dict(ENV)
+    if CONFIGS[cfg].get("miri"):
+        cmd = ["cargo", "+nightly", "miri", "run", "-q", "-p", "coapmc", "--offline", "--target-dir", "target-miri" + MUT]
+        if REPO_OVERRIDE:
+            cmd += ["--config", f'paths=["{REPO_OVERRIDE}"]']
+        cmd += ["--", pid, "--tier", tier, "--seed", str(seed), "--config", cfg, "--out", part, "--threads", "1"]
+        env["MIRIFLAGS"] = "-Zmiri-disable-isolation -Zmiri-ignore-leaks"
     if extra:
         cmd += extra
-    env = dict(ENV)
     if cfg == "asan":
         env["ASAN_OPTIONS"] = "detect_leaks=0:abort_on_error=0:exitcode=66:allocator_may_return_null=1"
     t0 = time.time()
@@ -302,6 +332,22 @@ def run_config(pid, cfg, tier, seed, extra=None):
             signature=f"{pid}/non-termination", what=f"a subject call made no progress for 20 s in {j.get('stalled_case')}",
             family=str(j.get("stalled_case", "?")).split(":")[0], index=None, history=None,
             case=dict(stalled_case=j.get("stalled_case")), config=cfg))
+        return res
+    if "NON-UNWINDING-PANIC" in r.stderr:
+        msg = next((l for l in r.stderr.splitlines() if l.startswith("NON-UNWINDING-PANIC")), "")[len("NON-UNWINDING-PANIC "):]
+        case = next((l[len("ABORT-CASE "):].strip() for l in r.stderr.splitlines() if l.startswith("ABORT-CASE ")), None)
+        fam, idx = (case.rsplit(":", 1) + [None])[:2] if case else ("?", None)
+        kind = "unsafe-precondition-violated" if "unsafe precondition" in msg else "non-unwinding-panic"
+        res["synthetic"].append(dict(
+            signature=f"{pid}/{kind}", what=f"the process aborted while executing case {case}: {msg[:300]}",
+            family=fam, index=int(idx) if idx and idx.isdigit() else None, history=None,
+            case=dict(abort_message=msg[:1000], stderr_tail=r.stderr[-1500:]), config=cfg))
+        return res
+    if CONFIGS[cfg].get("miri") and "Undefined Behavior" in r.stderr:
+        ub = next((l for l in r.stderr.splitlines() if "Undefined Behavior" in l), "Undefined Behavior")
+        res["synthetic"].append(dict(
+            signature=f"{pid}/miri/undefined-behavior", what=f"Miri: {ub.strip()}", family="miri-boundary-slice", index=None,
+            history=None, case=dict(miri_report=r.stderr[-3000:]), config=cfg))
         return res
     if cfg == "asan" and ("AddressSanitizer" in r.stderr or r.returncode == 66):
         case = None
@@ -337,6 +383,34 @@ def validate(evidence):
             sys.exit(2)
     except FileNotFoundError:
         log("note: python3-vt not found, evidence not schema-validated")
+
+
+def cross_engine_guard(families):
+    """Second, independent enumerator (stateright, BFS then DFS) over the Observe reference model: its unique state
+    count must equal the number of canonical states the real-code search visited. Mismatch = machinery failure."""
+    r = subprocess.run(["cargo", "build", "-p", "xcheck", "--offline", "--profile", "oc"], cwd=MC, env=ENV,
+                       stdout=subprocess.PIPE, stderr=subprocess.STDOUT, text=True)
+    if r.returncode != 0:
+        log(r.stdout[-3000:])
+        log("MACHINERY: xcheck build failed")
+        sys.exit(2)
+    out = []
+    seen = set()
+    for f in families:
+        m = re.match(r"bfs-limit(\d+)(-3endpoints-3tokens-1path)?$", f["name"])
+        if not m or f["name"] in seen or f.get("config") != "oc":
+            continue
+        seen.add(f["name"])
+        r = subprocess.run([os.path.join(MC, "target/oc/xcheck"), m.group(1), "1" if m.group(2) else "0"],
+                           stdout=subprocess.PIPE, stderr=subprocess.PIPE, text=True)
+        j = json.loads(r.stdout.strip().splitlines()[-1])
+        j["real_code_states"] = f["states"]
+        j["family"] = f["name"]
+        out.append(j)
+        if not (j["bfs_unique_states"] == j["dfs_unique_states"] == f["states"] and j["properties_hold"]):
+            log(f"MACHINERY: cross-engine state count mismatch for {f['name']}: {j}")
+            sys.exit(2)
+    return out
 
 
 def check(pid, tier):
@@ -387,6 +461,10 @@ def check(pid, tier):
             config=res["config"], wall_s=round(res["wall"], 2), evaluations=rep["evaluations"], states=rep["states"],
             transitions=rep["transitions"], distinct_buckets=rep["distinct_buckets"], violations=rep["violation_count"],
             signature_counts=rep["signature_counts"]))
+    # ---- cross-engine guard (thorough, C14/C15): stateright enumerates the reference model; counts must agree
+    if tier == "thorough" and pid in ("C14", "C15"):
+        xc = cross_engine_guard(families)
+        notes["cross_engine_stateright"] = xc
     # for state-space checks the distinct non-trivial cases are the distinct canonical states (max over configs)
     max_states = max([pc.get("states", 0) for pc in per_config] + [0])
     distinct = max(distinct, max_states)
@@ -475,6 +553,12 @@ def replay(pid, path):
 def setup():
     for cfg in CONFIGS:
         build(cfg)
+    subprocess.run(["cargo", "build", "-p", "xcheck", "--offline", "--profile", "oc"], cwd=MC, env=ENV)
+    # Miri: build its sysroot and the interpreted binary once (offline)
+    r = subprocess.run(["cargo", "+nightly", "miri", "run", "-q", "-p", "coapmc", "--offline", "--target-dir", "target-miri", "--",
+                        "C04", "--config", "miri", "--threads", "1", "--out", "/dev/null"], cwd=MC,
+                       env=dict(ENV, MIRIFLAGS="-Zmiri-disable-isolation -Zmiri-ignore-leaks"), stdout=subprocess.PIPE, stderr=subprocess.STDOUT, text=True)
+    log(f"[miri warm-up] exit {r.returncode}")
     print("setup ok")
 
 
